@@ -137,7 +137,7 @@ Definition stB0 : stB := stBi false.
 (* BHealth k: the health stream delivers 1 SERVING, 0 any other status, 2 an error other than
    Unimplemented, 3 Unimplemented.  BServerClose g: onClose of the current transport, g = it
    is a GOAWAY (graceful) rather than a lost connection. *)
-Inductive bop := BConnect | BDial (ok : bool) | BServerClose (g : bool) | BTimer | BShutdown | BClose | BReset
+Inductive bop := BConnect | BDial (ok : bool) | BServerClose (g : bool) | BTimer | BDialLost | BShutdown | BClose | BReset
                | BUpdAddrs (fresh : bool) | BHealth (k : Z) | BHBackoff | BDeliver | BNop.
 
 (* addrConn.updateConnectivityState *)
@@ -178,6 +178,11 @@ Definition bstep (b : stB) (o : bop) : stB :=
     if tr b && negb (ast b =? 4) then emit (set_tr (kill_h b) false) 0 else b   (* transport = nil, IDLE *)
   | BTimer =>              (* back-off timer fired *)
     if phase b =? 2 then set_phase (emit b 0) 0 else b
+  | BDialLost =>           (* the connection is established and lost again (GOAWAY / drop) before
+                              createTransport re-acquires ac.mu: onClose ran with ac.transport == nil and
+                              only cancelled hctx; createTransport sees hctx.Err() != nil, does NOT install
+                              the transport (no READY, no health checker) and reports IDLE; no back-off *)
+    if phase b =? 1 then set_phase (emit b 0) 0 else b
   | BReset =>              (* resetConnectBackoff closes the resetBackoff channel *)
     if phase b =? 2 then set_phase (emit b 0) 0 else b
   | BShutdown => teardown b
@@ -264,7 +269,7 @@ Definition decA (op : word) : list aop :=
 Definition decB (op : word) : bop :=
   match op with
   | [1] => BConnect
-  | [2; ok] => BDial (negb (ok =? 0))
+  | [2; ok] => if ok =? 2 then BDialLost else BDial (negb (ok =? 0))
   | [3] => BServerClose false
   | [4] => BTimer
   | [5] => BShutdown
@@ -397,7 +402,8 @@ Definition clausesB_op (b : stB) (op o : word) : list (Z * Z * bool) :=
        (4, a', (if lbopen b && negb (match decB op with BClose => negb (ccclosed b) | _ => false end)
                 then last_or prev d =? a' else true) &&
                (if ccclosed (bstep b (decB op)) then c' =? 4 else true));
-       (5, a', if (ast b =? 4) || mem 4 d then a' =? 4 else true)]
+       (5, a', if (ast b =? 4) || mem 4 d then a' =? 4 else true);
+       (6, n, match decB op with BDialLost => negb (mem 2 d) | _ => true end)]
     | _ => [(0, 0, false)]
     end
   | [] => [(0, 0, false)]
